@@ -138,7 +138,8 @@ CLAIMED["C15"] = (
     "that the tree handed to the serialiser equals, leaf by leaf, the tree a fresh identically constructed writer produces. "
     "The overwrite policy (ALWAYS / SKIP x file exists x format x method x foreign writer in between, second write on the same "
     "object) is explored exhaustively on real files.",
-    "histories <= 4 steps, two writers; protobuf writes only on a concrete scenario; lxml serialisation outside", "2/C15")
+    "histories <= 4 steps, two writers (XML and protobuf writes, the latter on message stubs with the bytes handed to the file "
+    "captured as the message they serialise); lxml serialisation and the protobuf wire format outside", "2/C15")
 CLAIMED["C02"] = (
     "Message passthrough: the real XxxMessage.create_message builders run symbolically against stub message objects generated "
     "at run time from the repository's *_pb2 DESCRIPTORs (proto2 presence / oneof / defaults / scalar type checks / required "
